@@ -30,6 +30,28 @@ Definition kind_mult (k : ckind) (g : gate_spec) : Q :=
   | KBothCut => both_wires_mult
   end.
 
+(* replaying the recorded actions on (wiremap, num_wires): the wire ids stored in the arguments are the ones the
+   state had when the action was taken *)
+Definition astep (st : option (list nat * nat)) (a : action) : option (list nat * nat) :=
+  match st with
+  | None => None
+  | Some (wm, nw) =>
+      let g := a_gate a in
+      match a_name a, a_args a with
+      | CutTwoQubitGate, _ => Some (wm, nw)
+      | CutLeftWire, [[1; w; r]] =>
+          if Nat.eqb w (nth (q1_of g) wm 0) && Nat.eqb r nw then Some (upd wm (q1_of g) nw, S nw) else None
+      | CutRightWire, [[2; w; r]] =>
+          if Nat.eqb w (nth (q2_of g) wm 0) && Nat.eqb r nw then Some (upd wm (q2_of g) nw, S nw) else None
+      | CutBothWires, [[1; w; r]; [2; w'; r']] =>
+          if Nat.eqb w (nth (q1_of g) wm 0) && Nat.eqb r nw && Nat.eqb w' (nth (q2_of g) wm 0) && Nat.eqb r' (S nw)
+          then Some (upd (upd wm (q1_of g) nw) (q2_of g) (S nw), S (S nw)) else None
+      | _, _ => None
+      end
+  end.
+
+Definition replay (A : list action) (wm : list nat) (nw : nat) := fold_left astep A (Some (wm, nw)).
+
 Lemma InvU_set_level names W s cur E l : InvU names W s cur E -> InvU names W (set_level s l) cur E.
 Proof.
   intros I. destruct I. constructor; cbn; auto.
@@ -56,38 +78,39 @@ Section Step.
         num_wires s <= num_wires s' /\ num_wires s' <= num_wires s + 2 /\
         (gamma_UB s' == gamma_UB s * kind_mult (kind_of k) g)%Q /\
         (k = KGate -> g_gamma g <> None) /\
-        actions s' = actions s ++ new_actions k s g.
+        actions s' = actions s ++ new_actions k s g /\
+        fold_left astep (new_actions k s g) (Some (wiremap s, num_wires s)) = Some (wiremap s', num_wires s').
   Proof.
     intros I G. unfold next_state. destruct k; cbn [next_state_primitive kind_of kind_step fst snd new_actions kind_mult].
     - destruct (apply_gate_ok names W HW Hnames s cur E g I G) as (l & Hl & Hall & _).
       rewrite Hl. cbn [obind]. eexists; split; [reflexivity|].
       intros s' Hin. apply in_map_iff in Hin as (s0 & <- & Hin).
-      destruct (Hall s0 Hin) as (IU & _ & Enw & Elen & Eg & Ea & El).
-      split; [now apply InvU_set_level|]. cbn. rewrite Enw, Elen, Eg, Ea, app_nil_r.
+      destruct (Hall s0 Hin) as (IU & _ & Enw & Elen & Eg & Ea & El & Ewm).
+      split; [now apply InvU_set_level|]. cbn. rewrite Enw, Elen, Eg, Ea, app_nil_r, Ewm.
       repeat match goal with |- _ /\ _ => split end; auto; try lia; try (intros; discriminate). ring.
     - destruct (gate_cut_ok names W HW Hnames s cur E g I G) as (l & Hl & Hall & _).
       rewrite Hl. cbn [obind]. eexists; split; [reflexivity|].
       intros s' Hin. apply in_map_iff in Hin as (s0 & <- & Hin).
-      destruct (Hall s0 Hin) as (gam & Eg & _ & IU & Enw & Elen & Egam & Ea & El).
-      split; [now apply InvU_set_level|]. cbn. rewrite Enw, Elen, Egam, Ea. unfold gamma_or_1. rewrite Eg.
+      destruct (Hall s0 Hin) as (gam & Eg & _ & IU & Enw & Elen & Egam & Ea & El & Ewm).
+      split; [now apply InvU_set_level|]. cbn. rewrite Enw, Elen, Egam, Ea, Ewm. unfold gamma_or_1. rewrite Eg.
       repeat match goal with |- _ /\ _ => split end; auto; try lia; try reflexivity. intros _; discriminate.
     - destruct (left_cut_ok names W HW Hnames s cur E g I G) as (l & Hl & Hall & _).
       rewrite Hl. cbn [obind]. eexists; split; [reflexivity|].
       intros s' Hin. apply in_map_iff in Hin as (s0 & <- & Hin).
-      destruct (Hall s0 Hin) as (IU & Enw & Elen & Egam & Ea & El).
-      split; [now apply InvU_set_level|]. cbn. rewrite Enw, Elen, Egam, Ea.
+      destruct (Hall s0 Hin) as (IU & Enw & Elen & Egam & Ea & El & Ewm).
+      split; [now apply InvU_set_level|]. cbn. rewrite Enw, Elen, Egam, Ea, Ewm. unfold get_wire. rewrite !Nat.eqb_refl. cbn.
       repeat match goal with |- _ /\ _ => split end; auto; try lia; try (intros; discriminate); try reflexivity.
     - destruct (right_cut_ok names W HW Hnames s cur E g I G) as (l & Hl & Hall & _).
       rewrite Hl. cbn [obind]. eexists; split; [reflexivity|].
       intros s' Hin. apply in_map_iff in Hin as (s0 & <- & Hin).
-      destruct (Hall s0 Hin) as (IU & Enw & Elen & Egam & Ea & El).
-      split; [now apply InvU_set_level|]. cbn. rewrite Enw, Elen, Egam, Ea.
+      destruct (Hall s0 Hin) as (IU & Enw & Elen & Egam & Ea & El & Ewm).
+      split; [now apply InvU_set_level|]. cbn. rewrite Enw, Elen, Egam, Ea, Ewm. unfold get_wire. rewrite !Nat.eqb_refl. cbn.
       repeat match goal with |- _ /\ _ => split end; auto; try lia; try (intros; discriminate); try reflexivity.
     - destruct (both_cut_ok names W HW Hnames s cur E g I G) as (l & Hl & Hall & _).
       rewrite Hl. cbn [obind]. eexists; split; [reflexivity|].
       intros s' Hin. apply in_map_iff in Hin as (s0 & <- & Hin).
-      destruct (Hall s0 Hin) as (IU & Enw & Elen & Egam & Ea & El).
-      split; [now apply InvU_set_level|]. cbn. rewrite Enw, Elen, Egam, Ea.
+      destruct (Hall s0 Hin) as (IU & Enw & Elen & Egam & Ea & El & Ewm).
+      split; [now apply InvU_set_level|]. cbn. rewrite Enw, Elen, Egam, Ea, Ewm. unfold get_wire. rewrite !Nat.eqb_refl. cbn.
       repeat match goal with |- _ /\ _ => split end; auto; try lia; try (intros; discriminate); try reflexivity.
   Qed.
 End Step.
@@ -168,7 +191,8 @@ Section Global.
     inv_gamma : (gamma_UB s == plan_gamma (combine gates pl))%Q ;
     inv_nw : num_wires s <= length names + 2 * level s ;
     inv_len_u : length (uptree s) = M ;
-    inv_kinds : Forall (fun kd => exists k, In k acts /\ kind_of k = kd) pl
+    inv_kinds : Forall (fun kd => exists k, In k acts /\ kind_of k = kd) pl ;
+    inv_trace : replay (actions s) (seq 0 (length names)) (length names) = Some (wiremap s, num_wires s)
   }.
 
   Lemma Inv_init m : Inv (length names + m) (init_state (length names) m) [].
@@ -192,7 +216,7 @@ Section Global.
     assert (Hg : In g gates) by (apply nth_In; auto).
     destruct (next_state_ok names W HW Hnames s _ _ g k (inv_u _ _ _ I) (Hgates g Hg)) as (l0 & Hl0 & Hall).
     rewrite Hns in Hl0. inversion Hl0; subst l0.
-    destruct (Hall s' Hin) as (IU & El & Elen & Hnw1 & Hnw2 & Egam & Hgc & Ea).
+    destruct (Hall s' Hin) as (IU & El & Elen & Hnw1 & Hnw2 & Egam & Hgc & Ea & Etr).
     assert (Ec : combine gates (pl ++ [kind_of k]) = combine gates pl ++ [(g, kind_of k)]).
     { unfold g. rewrite <- (inv_len _ _ _ I). apply combine_snoc. rewrite (inv_len _ _ _ I). exact Hlvl. }
     assert (Eabs : abs_of (pl ++ [kind_of k]) = kind_step (Q1 names g) (Q2 names g) (kind_of k) (abs_of pl)).
@@ -209,6 +233,8 @@ Section Global.
     - pose proof (inv_nw _ _ _ I). rewrite El. lia.
     - rewrite Elen. apply (inv_len_u _ _ _ I).
     - apply Forall_app; split; [apply (inv_kinds _ _ _ I)|]. constructor; [eauto|constructor].
+    - unfold replay. rewrite Ea, fold_left_app. fold (replay (actions s) (seq 0 (length names)) (length names)).
+      rewrite (inv_trace _ _ _ I). exact Etr.
   Qed.
 
   Variable fa : fargs.
